@@ -181,3 +181,112 @@ def replay_h_convert_decimal_bytes(iv, nb, scale):
         return True, "DECIMAL(scale %d) stored in %d bytes %s decodes to %r, the value is %r" % (
             scale, nb, raw.hex(), out[0], want)
     return False, "decoded"
+
+
+# ------------------------------------------------------------------ statistics values through both converters ---
+import pandas as pd
+import fastparquet.writer as writer
+
+TEXTS = ["ab", "ab ", " ab", "ab  ", "a b", "", " ", "é ", "ab\t"]
+BIG = [0, 1, -1, (1 << 53) + 1, -(1 << 53) - 1, (1 << 63) - 1, -(1 << 63), (1 << 31), (1 << 32) - 1, 123456789012345679]
+IDT = ["Int64", "UInt64", "Int32", "UInt32", "int64", "uint64"]
+
+
+def _untraced(fn):
+    try:
+        from crosshair.tracers import NoTracing
+    except ImportError:
+        return fn()
+    with NoTracing():
+        return fn()
+
+
+def h_stat_text_decodes(i: int, fixed: bool) -> bool:
+    """
+    pre: 0 <= i < 9
+    post: __return__
+    """
+    # the min / max bytes of a text column as ParquetFile.statistics decodes them (an array of bytes strings through
+    # converted_types.convert): exactly the stored text, blanks included.  Texts are chosen by index; the real
+    # numpy / pandas run untraced on the concrete bytes
+    t = TEXTS[_pick(i, 0, 8)]
+    raw = t.encode("utf8")
+    if len(raw) == 0 and fixed:
+        return True
+
+    def run():
+        se = parquet_thrift.SchemaElement(name="x", type=parquet_thrift.Type.BYTE_ARRAY, converted_type=CT.UTF8)
+        arr = np.array([raw, raw], dtype=("S%d" % len(raw)) if fixed else None)
+        out = ct.convert(arr, se)
+        return [str(x) for x in out]
+    return _untraced(run) == [t, t]
+
+
+def replay_h_stat_text_decodes(i, fixed):
+    import os, shutil, tempfile
+    import fastparquet
+    t = TEXTS[i]
+    d = tempfile.mkdtemp(prefix="c04-")
+    try:
+        fn = os.path.join(d, "t.parq")
+        fastparquet.write(fn, pd.DataFrame({"x": [t, t + "z"], "y": ["0" + t, t]}), stats=True)
+        st = fastparquet.ParquetFile(fn).statistics
+        got = (st["min"]["x"][0], st["max"]["y"][0])
+        if got != (t, "0" + t if "0" + t > t else t):
+            return True, "text column holding %r: statistics report min(x)=%r max(y)=%r" % (t, got[0], got[1])
+        return False, "statistics carry the stored text"
+    finally:
+        shutil.rmtree(d, ignore_errors=True)
+
+
+def h_writer_convert_ints(iv: int, it: int) -> bool:
+    """
+    pre: 0 <= iv < 10 and 0 <= it < 6
+    post: __return__
+    """
+    # writer.convert on an integer series (what the page values and the min/max of a chunk go through), plain and
+    # nullable dtypes: the stored integer has the bits of the value - also beyond 2**53, where a detour through
+    # floating point rounds
+    v, name = BIG[_pick(iv, 0, 9)], IDT[_pick(it, 0, 5)]
+    bits = 32 if "32" in name else 64
+    unsigned = name.lower().startswith("u")
+    lo, hi = (0, (1 << bits) - 1) if unsigned else (-(1 << (bits - 1)), (1 << (bits - 1)) - 1)
+    if not (lo <= v <= hi):
+        return True
+
+    def run():
+        ser = pd.Series(np.array([v], dtype=name.lower()))
+        if name[0].isupper():
+            ser = ser.astype(name)
+        se, _ = writer.find_type(ser)
+        out = writer.convert(ser, se)
+        return int(np.asarray(out).astype("int64" if bits == 64 else "int32").view("uint64" if bits == 64 else "uint32")[0])
+    return _untraced(run) == v % (1 << bits)
+
+
+def replay_h_writer_convert_ints(iv, it):
+    import os, shutil, tempfile
+    import fastparquet
+    v, name = BIG[iv], IDT[it]
+    bits = 32 if "32" in name else 64
+    unsigned = name.lower().startswith("u")
+    lo, hi = (0, (1 << bits) - 1) if unsigned else (-(1 << (bits - 1)), (1 << (bits - 1)) - 1)
+    if not (lo <= v <= hi):
+        return None, "value outside the dtype"
+    d = tempfile.mkdtemp(prefix="c04-")
+    try:
+        fn = os.path.join(d, "t.parq")
+        other = 0 if v != 0 else 1
+        ser = pd.Series(np.array([other, v], dtype=name.lower()))
+        if name[0].isupper():
+            ser = ser.astype(name)
+        fastparquet.write(fn, pd.DataFrame({"x": ser}), stats=True)
+        pf = fastparquet.ParquetFile(fn)
+        st = pf.statistics
+        got = (int(st["min"]["x"][0]), int(st["max"]["x"][0]))
+        vals = [int(x) for x in pf.to_pandas()["x"]]
+        if vals != [other, v] or got != (min(other, v), max(other, v)):
+            return True, "%s column holding %r: read back %r, statistics min/max %r" % (name, [other, v], vals, got)
+        return False, "values and statistics exact"
+    finally:
+        shutil.rmtree(d, ignore_errors=True)
